@@ -22,7 +22,7 @@ RULE = ("histories of 1..6 operations (list insert/append/pop, list insert_befor
 EXHAUSTIVE = {"quick": True, "thorough": True}
 TRUSTED = ["Coq 8.16.1 kernel incl. vm_compute (no native_compute)",
            "hand model coq/Model/Session.v: each operation's text effect is the list operation named by the property; delete uses the descendants of the constructor model; tied by this correspondence after every step",
-           "append_to_family: the insertion index is OBSERVED from the implementation and checked against the property's contract (inside the family, no parent changes) with the constructor model; its index arithmetic is not modelled",
+           "append_to_family: the insertion index is OBSERVED from the implementation and checked against the property's contract (inside the family, no parent changes) with the constructor model; its index arithmetic is modelled for the child case at auto_indent_width 1 only (atf_child_index = directly after the last descendant; tied on every committed ios state by atf_index_agrees), the sibling placement and the NotImplementedError branches are not modelled",
            "regex matching for list-level insert_before/after and re_sub/replace_text payloads: computed by the harness with Python re / str.replace (oracle)"]
 ASSUMPTIONS = ["each edit is applied to a committed state (auto_commit on, or an explicit commit after every edit): with auto_commit off the library requires a commit before line numbers are valid again",
                "ignore_blank_lines is off in this property's histories (C07 covers it)"]
@@ -33,7 +33,7 @@ LEVEL_TEXT = ("The model's operations ARE the list operations of the property; t
               "family, no existing parent changed) is evaluated on the implementation's observed insertion index with the proved constructor model. "
               "insertion_preserves_parents characterises when an inserted line leaves every existing parent link alone (conditions A and B), and insertion_after_family_preserves_parents proves both "
               "conditions for every insertion directly above a shallower ordinary command or at the end of the configuration (append_to_family's normal case).")
-LEVEL_NOTE = ("PARTIAL for append_to_family: its index arithmetic is not modelled; the contract is checked per observed case (the index it picks is not proved for all configs; what is proved is that the index the contract allows is harmless). Known finding F35 (families made "
+LEVEL_NOTE = ("PARTIAL for append_to_family: its index arithmetic is modelled only for the child case at indent width 1 (atf_child_index, theorems atf_child_index_iff / _in_family: directly after the last descendant, after every descendant); otherwise the contract is checked per observed case (the index it picks is not proved for all configs; what is proved is that the index the contract allows is harmless). Known finding F35 (families made "
               "non-contiguous by the comment exception) is recognised by its trigger. Trusted: Coq kernel + vm_compute, hand model, regex oracle, driver.")
 
 SYM = ["a", " b", "  c", " Eth1", "!x", ""]
